@@ -42,11 +42,15 @@ class MipsInstruction(Instruction):
     isa = isa
 
 
-def make_r(mnemonic, opcode, funct, shamt=0):
+def make_r(mnemonic, opcode, funct, shamt=0, variable_shift=False):
     rs = Operand("rs", MipsRegister, read=True)
     rt = Operand("rt", MipsRegister, read=True)
     rd = Operand("rd", MipsRegister, write=True)
-    syntax = Syntax([mnemonic, " ", rd, ",", " ", rs, ",", " ", rt])
+    if variable_shift:
+        # sllv rd, rt, rs: rt is shifted by the amount in rs
+        syntax = Syntax([mnemonic, " ", rd, ",", " ", rt, ",", " ", rs])
+    else:
+        syntax = Syntax([mnemonic, " ", rd, ",", " ", rs, ",", " ", rt])
     patterns = {
         "opcode": opcode,
         "rs": rs,
@@ -150,9 +154,9 @@ Ori = make_i("ori", 13)
 Xori = make_i("xori", 14)
 Lui = make_i("lui", 15)
 
-Sllv = make_r("sllv", 0, 4)
-Srlv = make_r("srlv", 0, 6)
-Srav = make_r("srav", 0, 7)
+Sllv = make_r("sllv", 0, 4, variable_shift=True)
+Srlv = make_r("srlv", 0, 6, variable_shift=True)
+Srav = make_r("srav", 0, 7, variable_shift=True)
 
 
 class Jr(MipsInstruction):
@@ -303,7 +307,7 @@ def pattern_xor32(context, tree, c0, c1):
 @isa.pattern("reg", "SHLU32(reg, reg)", size=4, cycles=1, energy=1)
 def pattern_shl(context, tree, c0, c1):
     d = context.new_reg(MipsRegister)
-    context.emit(Sllv(d, c1, c0))
+    context.emit(Sllv(d, c0, c1))
     return d
 
 
@@ -311,7 +315,7 @@ def pattern_shl(context, tree, c0, c1):
 @isa.pattern("reg", "SHRU32(reg, reg)", size=4, cycles=1, energy=1)
 def pattern_shr(context, tree, c0, c1):
     d = context.new_reg(MipsRegister)
-    context.emit(Srlv(d, c1, c0))
+    context.emit(Srlv(d, c0, c1))
     return d
 
 
